@@ -7,6 +7,9 @@ package values
 
 import (
 	"fmt"
+	"math"
+
+	"github.com/onosproject/onos-lib-go/pkg/errors"
 
 	adminapi "github.com/onosproject/onos-api/go/onos/config/admin"
 	configapi "github.com/onosproject/onos-api/go/onos/config/v2"
@@ -41,6 +44,10 @@ func GnmiTypedValueToNativeType(gnmiTv *gnmi.TypedValue, modelPath *adminapi.Rea
 	case *gnmi.TypedValue_DecimalVal:
 		return configapi.NewTypedValueDecimal(v.DecimalVal.Digits, uint8(v.DecimalVal.Precision)), nil
 	case *gnmi.TypedValue_FloatVal:
+		// NaN is not a value of any YANG type and big.NewFloat panics on it
+		if math.IsNaN(float64(v.FloatVal)) {
+			return nil, errors.NewInvalid("float value NaN cannot be stored")
+		}
 		return configapi.NewTypedValueFloat(float64(v.FloatVal)), nil
 	case *gnmi.TypedValue_LeaflistVal:
 		var typeOpt0 uint64
